@@ -589,12 +589,37 @@ var witnessSeqs = map[string][]string{
 	"static kept across call, unpack": {"INITSSLOT2", "NEWARRAY2", "DUP", "STSFLD0", "ENTER_A", "UNPACK_K"},
 }
 
-func deepPart(s *stats, L int) (out deepOut) {
+// coreAlphabet: the sub-alphabet of the second, deeper pass (containers kept
+// on the stack, one slot of each kind, one call bracket, one try bracket).
+var coreAlphabet = []string{
+	"PUSH1", "NEWARRAY0", "NEWSTRUCT0", "NEWMAP", "DUP", "DROP", "SWAP",
+	"APPEND", "APPEND_K", "SETITEM0_K", "PICKITEM0_K", "REMOVE0", "REMOVE0_K", "CLEARITEMS_K", "POPITEM_K",
+	"PACK1", "PACKSTRUCT1", "PACKMAP1", "UNPACK", "UNPACK_K", "VALUES_K", "CONVERT_STRUCT",
+	"INITSSLOT2", "INITSLOT_L1A1", "STLOC0", "LDLOC0", "LDARG0", "STSFLD0", "LDSFLD0",
+	"ENTER", "LEAVE", "TRY_C", "ENDTRY", "THROW",
+}
+
+func alphabetMask(names []string) (m mask) {
+	if names == nil {
+		for i := range macros {
+			m.set(i)
+		}
+		return
+	}
+	for _, n := range names {
+		m.set(macroIndex(n))
+	}
+	return
+}
+
+func deepPart(s *stats, L int, allowed mask, witnesses bool) (out deepOut) {
 	r := s.r
 	out.witness = map[string]string{}
 	seen := map[[16]byte]struct{}{}
 	var faulted, missed vk.Counter
-	root, ok := runDeep(s, nil, newWalker(), true, &faulted, &missed)
+	w0 := newWalker()
+	root, ok := runDeep(s, nil, w0, true, &faulted, &missed)
+	s.merge(w0)
 	if !ok {
 		fmt.Println("C12 note: the empty program did not reach its mark")
 		return
@@ -610,11 +635,11 @@ func deepPart(s *stats, L int) (out deepOut) {
 			w := newWalker()
 			n := frontier[i]
 			for m := range macros {
-				if !n.m.has(m) {
+				if !n.m.has(m) || !allowed.has(m) {
 					continue
 				}
 				if m%8 == 0 && r.Expired() {
-					return
+					break
 				}
 				seq := append(append(make([]uint8, 0, len(n.seq)+1), n.seq...), uint8(m))
 				c, alive := runDeep(s, seq, w, !last, &faulted, &missed)
@@ -623,6 +648,7 @@ func deepPart(s *stats, L int) (out deepOut) {
 					results[i] = append(results[i], c)
 				}
 			}
+			s.merge(w)
 		})
 		out.programs += int(execd.Get())
 		out.levelCands = append(out.levelCands, int(execd.Get()))
@@ -672,7 +698,9 @@ func deepPart(s *stats, L int) (out deepOut) {
 	}
 	sort.Strings(wn)
 	for _, name := range wn {
-		out.witness[name] = runWitness(s, witnessSeqs[name], L)
+		if witnesses {
+			out.witness[name] = runWitness(s, witnessSeqs[name], L)
+		}
 	}
 	return
 }
@@ -692,6 +720,7 @@ func runWitness(s *stats, names []string, L int) string {
 		seq = append(seq, uint8(i))
 		c, ok = runDeep(s, seq, w, true, &faulted, &missed)
 	}
+	s.merge(w)
 	res := "member"
 	if len(names) > L {
 		res = fmt.Sprintf("member (length %d > L=%d: run on its own)", len(names), L)
